@@ -184,8 +184,11 @@ def render(u, style="slash"):
 _EXP = re.compile(r"(-?[0-9]+)(?::([0-9]+))?$")
 
 
-def parse_units(text):
-    """Read the text returned by Quantity.units() back into {(prefix, symbol): exponent}.  None -> {}."""
+def parse_units(text, keep_zero=False):
+    """Read the text returned by Quantity.units() back into {(prefix, symbol): exponent}.  None -> {}.
+
+    Terms reported with exponent 0 ('m0') are left out of the map unless keep_zero is set (C06 compares the reported
+    units with and without them: a unit that cancelled must not be reported at all)."""
     if text is None or text == "":
         return {}
     if not isinstance(text, str):
@@ -204,6 +207,8 @@ def parse_units(text):
         if key in m:
             raise RefError("unit %r twice in %r" % (head, text))
         m[key] = e
+    if keep_zero:
+        return m
     return {k: v for k, v in m.items() if v != 0}
 
 
